@@ -194,6 +194,39 @@ func main() {
 			nontrivial += int64(len(symbols) - 1) // one substitution reproduces the base string
 		}
 	}
+	// (3b) every single byte value (signs, blanks, dots, letters ...) at every position of digit strings
+	// of length 1..70, and every byte value at every position of BCD slices of length 17..40 - block-wise
+	// implementations have their seams at multiples of 8, 16, 32
+	vk.Parallel(70, func(k int) {
+		n := k + 1
+		base := make([]byte, n)
+		for i := range base {
+			base[i] = '0' + byte((i*3+n)%10)
+		}
+		for pos := 0; pos < n; pos++ {
+			orig := base[pos]
+			for v := 0; v < 256; v++ {
+				base[pos] = byte(v)
+				checkEncode(r, string(base))
+			}
+			base[pos] = orig
+		}
+		if n >= 17 && n <= 40 {
+			raw := make([]byte, n)
+			for i := range raw {
+				raw[i] = spec.BCD2((i*13 + n) % 100)
+			}
+			for pos := 0; pos < n; pos++ {
+				orig := raw[pos]
+				for v := 0; v < 256; v++ {
+					raw[pos] = byte(v)
+					checkDecode(r, raw)
+				}
+				raw[pos] = orig
+			}
+		}
+	})
+	nontrivial += 70 * 71 / 2 * 246
 	for n := 1; n <= 16; n++ {
 		base := make([]byte, n)
 		for i := range base {
@@ -350,7 +383,7 @@ func main() {
 	}
 
 	r.Distinct(nontrivial)
-	r.Rule(fmt.Sprintf("every Unicode code point alone and embedded in a digit string; many bad symbols at once: 1..1100 and 10 counts around 2^12 / 2^16 / 2^17 / 2^20 bad bytes (5 values) or characters (3), alone and alternating with valid ones; long inputs: digit strings / BCD slices of 26 (thorough 30) lengths from 255 to 67 108 865 (thorough 268 435 457) digits, all valid and with one bad symbol at the first, middle and last position; histories (consecutive calls): every ordered pair of byte values at every position of slices of length 1..9 and 16 (two base patterns) for Decode, every ordered pair of symbols at every position of digit strings of length 1..17 for Encode - counted as evaluations only; every string of length 0..%d over {0..9,'a','é'}; every byte slice of length 0..2 and (thorough: all; quick: one byte fixed to a boundary value) length 3; every single (position,symbol) substitution into digit strings of length 1..32 and BCD slices of length 1..16; distinct = distinct inputs by construction", maxLen))
+	r.Rule(fmt.Sprintf("every Unicode code point alone and embedded in a digit string; many bad symbols at once: 1..1100 and 10 counts around 2^12 / 2^16 / 2^17 / 2^20 bad bytes (5 values) or characters (3), alone and alternating with valid ones; long inputs: digit strings / BCD slices of 26 (thorough 30) lengths from 255 to 67 108 865 (thorough 268 435 457) digits, all valid and with one bad symbol at the first, middle and last position; histories (consecutive calls): every ordered pair of byte values at every position of slices of length 1..9 and 16 (two base patterns) for Decode, every ordered pair of symbols at every position of digit strings of length 1..17 for Encode - counted as evaluations only; every string of length 0..%d over {0..9,'a','é'}; every byte slice of length 0..2 and (thorough: all; quick: one byte fixed to a boundary value) length 3; every single (position,symbol) substitution into digit strings of length 1..32 and BCD slices of length 1..16; every byte value at every position of digit strings of length 1..70 and BCD slices of length 17..40; distinct = distinct inputs by construction", maxLen))
 	r.Sample(map[string]any{"encode": "12a", "reference": "error"})
 	r.Sample(map[string]any{"encode": "123", "reference": "0123"})
 	r.Sample(map[string]any{"decode": "129a", "reference": "error"})
